@@ -9,6 +9,7 @@ from vf.effects import effect, Fault, Patch, note, names, ok, occ
 from pony.orm import core, dbapiprovider as dp
 from pony.orm.dbproviders import sqlite as sq
 from contracts import stubs
+from contracts import c18 as _c18
 stubs.install_driver_stubs()
 from pony.orm.dbproviders import postgres as pg
 import psycopg2
@@ -361,4 +362,5 @@ CONTRACTS = [
               ('commit_failure_reported', _sess_errors_reported)],
              allowed_exc=(), doc='(+ real PGProvider / PGPool with reconnect on OperationalError) one whole session (read-only / read-then-write / body raises) x optimistic / immediate / ddl x file / memory / generic provider; '
                                  'functions inlined (executed for real) across three layers', budget=400000),
-]
+] + [c for c in _c18.CONTRACTS if c.id == 'generator_wrapper']          # a suspended generator must hold neither changes nor an open transaction (shared with C18)
+
